@@ -410,6 +410,11 @@ func (p *Pollard) Verify(delHashes []Hash, proof Proof, remember bool) error {
 			len(proof.Targets), len(delHashes))
 	}
 
+	err := checkNoEmptyHashes(delHashes, proof)
+	if err != nil {
+		return err
+	}
+
 	_, rootCandidates, err := calculateHashes(p.NumLeaves, delHashes, proof)
 	if err != nil {
 		return err
@@ -440,6 +445,24 @@ func (p *Pollard) Verify(delHashes []Hash, proof Proof, remember bool) error {
 			len(rootCandidates), rootMatches,
 			printHashes(rootCandidates), printHashes(rootHashes))
 		return err
+	}
+
+	return nil
+}
+
+// checkNoEmptyHashes returns an error if any of the hashes to be proven or any
+// of the proof hashes is empty. Empty hashes only have a meaning when the roots
+// after a deletion are calculated and can never be a part of an inclusion proof.
+func checkNoEmptyHashes(delHashes []Hash, proof Proof) error {
+	for _, hash := range delHashes {
+		if hash == empty {
+			return fmt.Errorf("invalid proof. Got an empty hash to prove")
+		}
+	}
+	for _, hash := range proof.Proof {
+		if hash == empty {
+			return fmt.Errorf("invalid proof. Got an empty proof hash")
+		}
 	}
 
 	return nil
